@@ -1005,9 +1005,12 @@ class IASolverBaseClass:  # pylint: disable=R0902
             aux = np.dot(Ukl_H, np.dot(Hkk, Vkl))
             numerator = np.dot(aux, aux.transpose().conjugate())
             denominator = np.dot(Ukl_H, np.dot(Bkl_all_l[l], Ukl))
-            SINR_kl = numerator.item() / denominator.item()
-            # The imaginary part should be negligible
-            SINR_k[l] = np.abs(SINR_kl)
+            # The imaginary part should be negligible. Note that without
+            # noise a perfectly aligned stream has a denominator equal to
+            # zero (infinite SINR).
+            with np.errstate(divide='ignore'):
+                SINR_k[l] = (np.abs(numerator[0, 0]) /
+                             np.abs(denominator[0, 0]))
 
         return SINR_k
 
